@@ -10,6 +10,11 @@ var vHarnesses = map[string]func(){
 	"VH_C11":   VH_C11,
 	"VH_C12":   VH_C12,
 	"VH_C19":   VH_C19,
+	"VH_C07":   VH_C07,
+	"VH_C07G":  VH_C07G,
+	"VH_C07L":  VH_C07L,
+	"VH_C02":   VH_C02,
+	"VH_C13":   VH_C13,
 	"VH_C03":   VH_C03,
 	"VH_C03N":  VH_C03N,
 	"VH_C16":   VH_C16,
